@@ -28,7 +28,9 @@ Binding (code -> spec): documents captured from the real code
           randomised; namespaces of every value class plain / empty / with an
           empty component, in every role: default namespace, `namespace`
           argument, object names, instance paths, reference values,
-          enumeration contexts) and sent through the real operation method with a
+          enumeration contexts; cases whose document holds two paths in the
+          SAME namespace - coincidence class "same", computed by TLC - spell
+          it identically) and sent through the real operation method with a
           transport adapter mounted on conn.session,
         * every object case enumerated by TLC is concretised and written
           with tocimxmlstr() / tocimxml().toxml() / pywbem.tocimxmlstr()
@@ -82,6 +84,10 @@ REGRESSIONS = (
     ("WireOpsImplLegacyNameHost.cfg",
      "tocimxml() of object names tests the host first (INSTANCEPATH / "
      "CLASSPATH with an empty LOCALNAMESPACEPATH)"),
+    ("WireOpsImplLegacyNsShared.cfg",
+     "one shared (cached) LOCALNAMESPACEPATH element per namespace: of "
+     "several paths of one document in the same namespace only the one "
+     "built last keeps it"),
 )
 
 
@@ -137,8 +143,15 @@ class Conc:
     is irrelevant is randomised: lexical case of names and namespaces,
     int vs float vs CIM numeric, list vs tuple, positional vs keyword."""
 
-    def __init__(self, rng, voc):
+    def __init__(self, rng, voc, same=False):
         self.r = rng
+        # same: a namespace id (WireOpsImplOps!NsTok) is spelled identically
+        # wherever it occurs in the document (coinciding namespaces, see
+        # "coincidence of namespaces" in the spec); else every occurrence
+        # gets its own lexical case (same namespace, CIM names being case-
+        # insensitive, but different strings)
+        self.same = same
+        self.nsmemo = {}
         self.optable = voc["optable"]
         self.refspec = voc["refspec"]           # WireOpsImplOps!RefSpec
         self.mrefarrays = voc["mrefarrays"]     # WireOpsImplOps!MRefArrays
@@ -158,6 +171,13 @@ class Conc:
         """Namespace string for a namespace id of WireOpsImplOps!NsTok.
         ..e: the empty namespace (given as '' or as slashes only, which the
         setters strip); ..g: 'root//<last>' (an empty inner component)."""
+        if self.same:
+            if token not in self.nsmemo:
+                self.nsmemo[token] = self.ns1(token)
+            return self.nsmemo[token]
+        return self.ns1(token)
+
+    def ns1(self, token):
         # (the namespace of an enumeration context is not stripped by pywbem:
         # no surrounding slashes there, they would be components)
         strips = token[0] != "c"
@@ -692,6 +712,8 @@ def header_class(headers):
             out |= set(W.char_classes(v))
             if re.search(r"%[0-9A-Fa-f]{2}", v):
                 out.add("pct")
+            if v != v.strip(" \t"):     # white space a receiver strips
+                out.add("edgeblank")
     out.discard("ascii")
     return "+".join(sorted(out)) or "ascii"
 
@@ -717,6 +739,9 @@ class Gen:
         # clean_ns: namespaces of generated paths never contain delimiters
         # (they may become the target namespace of a request)
         self.clean_ns = clean_ns
+        # namespaces used so far in this document: paths of one document
+        # often lie in the same namespace (WireOpsImplOps!CoinClasses)
+        self.pool = []
 
     def text(self, maxlen=6):
         r = self.r
@@ -733,6 +758,14 @@ class Gen:
         """A namespace of one of the value classes of WireOpsImplOps!NsClasses:
         plain (mostly), empty ('' or slashes only), gap (an empty component
         between two others)."""
+        r = self.r
+        if self.pool and r.random() < 0.4:      # coincidence class "same"
+            return r.choice(self.pool)
+        s = self.ns1()
+        self.pool.append(s)
+        return s
+
+    def ns1(self):
         r = self.r
         odd = 0 if self.clean_ns else 0.05
         k = r.random()
@@ -1145,6 +1178,9 @@ HDR_CLASSES = {
     "latin1": ["a", "\xe4", "\xff", "\xe9", "\xa0"],
     "bmp": ["a", "\u4e2d", "\u0100", "\u20ac"],
     "astral": ["a", "\U0001f600"],
+    # WireOps!HdrNameClasses "edgeblank": the name ENDS with a blank (a
+    # leading one makes requests refuse the header: local failure)
+    "edgeblank": ["a", " ", "b"],
 }
 
 
@@ -1166,6 +1202,8 @@ def target_names(rng, hclass):
             if hclass != "ascii" and not any(
                     c in s for c in al[1:]):
                 s += rng.choice(al[1:])
+            if hclass == "edgeblank":
+                s = (s.strip() or "a") + " "
             return s
         return "".join(rng.choice(HDR_CLASSES["ascii"])
                        for _ in range(1 + rng.randrange(4)))
@@ -1527,6 +1565,11 @@ def vocabulary(out):
     if len(optable) != 1 or len(refspec) != 1 or len(mrefarrays) != 1:
         raise vlib.MachineryError("vocabulary not printed by TLC\n"
                                   + out[-2000:])
+    hdrcl = parse_json_prints(out, "HDRCLASSES")
+    if len(hdrcl) != 1 or set(hdrcl[0]) != set(HDR_CLASSES):
+        raise vlib.MachineryError(
+            "target name classes of the drivers %r differ from "
+            "WireOps!HdrNameClasses %r" % (sorted(HDR_CLASSES), hdrcl))
     return {"optable": optable[0], "refspec": refspec[0],
             "mrefarrays": mrefarrays[0]}
 
@@ -1536,15 +1579,26 @@ def enumerate_cases(ctx):
         else "WireOpsImplGen.cfg"
     r = ctx.tlc("WireOpsImpl", cfg, workers=1, count=False,
                 label="case enumeration (WireOps_Gen)")
-    cases = parse_json_prints(r.out, "CASE")
+    # <<"CASE", "<json>", "<coincidence class>">>
+    cases = []
+    for m in re.finditer(r'^<<"CASE", (".*"), "(\w+)">>$', r.out, re.M):
+        cases.append((json.loads(json.loads(m.group(1))), m.group(2)))
     voc = vocabulary(r.out)
     seen = set()
     uniq = []
-    for c in cases:
+    coin = {}
+    for c, cc in cases:
         k = json.dumps(c, sort_keys=True)
         if k not in seen:
             seen.add(k)
             uniq.append(c)
+            coin[k] = cc
+            if cc not in ("single", "distinct", "same"):
+                raise vlib.MachineryError("coincidence class %r" % cc)
+    voc["coin"] = coin
+    ctx.extra["coincidence_classes"] = {
+        cc: sum(1 for v in coin.values() if v == cc)
+        for cc in ("single", "distinct", "same")}
     if len(uniq) != r.distinct:
         raise vlib.MachineryError(
             "TLC reports %d cases but printed %d" % (r.distinct, len(uniq)))
@@ -1604,14 +1658,14 @@ def build_doc(table, voc, seed, recipe):
     _cim_xml._CDATA_ESCAPING = cdata
     try:
         if d == "case":
-            conc = Conc(rng, voc)
+            conc = Conc(rng, voc, same=recipe.get("spell") == "same")
             op, pos, kw, ckw = conc.call(recipe["case"])
             ev, raw = request_event(table, op, pos, kw, ckw,
                                     shape=recipe["case"])
             return ev, raw, "%s %r %r" % (op, pos, kw)
         if d == "objcase":
             c = recipe["case"]
-            conc = Conc(rng, voc)
+            conc = Conc(rng, voc, same=recipe.get("spell") == "same")
             kind = "construction"
             try:
                 kind, fn = conc.objcase(c)
@@ -1649,6 +1703,7 @@ def build_doc(table, voc, seed, recipe):
         if d == "call":
             g = Gen(rng, clean_ns=True)
             tn = target_names(rng, recipe["hclass"])
+            g.pool.append(tn["ns"])     # references into the target namespace
             op = recipe["op"]
             try:
                 pos, kw = g.op_call(optable, op, tn)
@@ -1707,21 +1762,30 @@ def build_doc(table, voc, seed, recipe):
     raise vlib.MachineryError("unknown driver %r" % d)
 
 
-def plan(ctx, cases, objcases, optable):
-    """The list of recipes of this run."""
+def plan(ctx, cases, objcases, optable, coin):
+    """The list of recipes of this run.  Cases whose document holds two
+    paths in the same namespace (coincidence class "same", computed by TLC)
+    are concretised with identical spelling of equal namespace ids; the
+    thorough tier adds concretisations in which every occurrence has its own
+    lexical case."""
     rng = ctx.rng
     thorough = ctx.tier == "thorough"
     recipes = []
+
+    def recipe(driver, i, c, first):
+        rc = {"driver": driver, "i": i, "case": c,
+              "cdata": rng.random() < 0.1}
+        if first and coin.get(json.dumps(c, sort_keys=True)) == "same":
+            rc["spell"] = "same"
+        return rc
     for i, c in enumerate(cases):
-        recipes.append({"driver": "case", "i": i, "case": c,
-                        "cdata": rng.random() < 0.1})
-        if thorough and rng.random() < 0.15:      # a second concretisation
-            recipes.append({"driver": "case", "i": i + 10 ** 6, "case": c,
-                            "cdata": rng.random() < 0.1})
+        recipes.append(recipe("case", i, c, True))
+        if thorough and (rng.random() < 0.15 or "spell" in recipes[-1]):
+            # a second concretisation
+            recipes.append(recipe("case", i + 10 ** 6, c, False))
     for i, c in enumerate(objcases):
         for k in range(3 if thorough else 1):
-            recipes.append({"driver": "objcase", "i": i + k * 10 ** 6,
-                            "case": c, "cdata": rng.random() < 0.1})
+            recipes.append(recipe("objcase", i + k * 10 ** 6, c, k != 1))
     n_obj = 6000 if thorough else 700
     for i in range(n_obj):
         recipes.append({"driver": "object", "i": i,
@@ -1734,7 +1798,7 @@ def plan(ctx, cases, objcases, optable):
     for op in ops:
         for k in range(n_call):
             hclass = ["ascii", "ascii", "punct", "pct", "latin1", "bmp",
-                      "astral", "ascii"][k % 8]
+                      "astral", "edgeblank"][k % 8]
             recipes.append({"driver": "call", "i": i, "op": op,
                             "hclass": hclass,
                             "cdata": rng.random() < 0.1})
@@ -1790,7 +1854,7 @@ def run(ctx):
     check_signatures(ctx, optable)
     t_mc = time.time() - t0
 
-    recipes = plan(ctx, cases, objcases, optable)
+    recipes = plan(ctx, cases, objcases, optable, voc.pop("coin"))
     events, raws, descs = [], [], []
     t1 = time.time()
     for rc in recipes:
@@ -1937,6 +2001,8 @@ def run(ctx):
         "only namespace (component by component, empty components "
         "included; slashes around the header's namespace are tolerated), "
         "class and key names",
+        "extension header values are read as an HTTP receiver reads them "
+        "(white space around the field value removed, RFC 7230 3.2.4)",
         "header bytes are those http.client would send (latin-1); confirmed "
         "on a loopback socket for 3 requests per run",
         "multi-requests, responses of the mock server and pywbem_mock are "
